@@ -107,7 +107,18 @@ pub fn mutate(rng: &mut Rng, valid: &[u8], nfields: usize) -> Mutant {
     let off_base = 4;
     let tag_base = 4 + 4 * n.saturating_sub(1);
     let op: &'static str;
-    match rng.below(20) {
+    match rng.below(22) {
+        20 | 21 if n >= 3 => {
+            // all offsets from position i on moved by the same (usually unaligned) amount, so that
+            // the values between them keep their lengths
+            op = "offsets-shifted-together";
+            let i = rng.usize_below(n - 1);
+            let delta = *rng.pick(&[1i64, 2, 3, 5, 6, 7, -1, -2, -3, 4, -4, 8]);
+            for k in i..n - 1 {
+                let o = rd(&b, off_base + 4 * k) as i64;
+                wr(&mut b, off_base + 4 * k, (o + delta) as u32);
+            }
+        }
         0 => {
             op = "count+1";
             let c = rd(&b, 0);
